@@ -207,9 +207,20 @@ def _chain_targets(d, theory_raw, walls, lin_walls, nf0, real, max_targets):
     return uniq[:max_targets]
 
 
-def gen_cards(d, real=False, **kw):
+def gen_cards(d, real=False, qed_frac=0.0, **kw):
     th = gen_theory(d, real=real)
     op = gen_operator(d, th, real=real, **kw)
+    if real and qed_frac and d.chance("qed", qed_frac):
+        # QCD x QED evolution (unified flavour basis): only iterate-exact is implemented,
+        # ~10x the cost of LO QCD when interpreted -> one target, LO, one iteration
+        th["order"] = [1, 1]
+        th["matching_order"] = [0, 0]
+        th["couplings"]["em_running"] = d.chance("qed:running", 0.5)
+        op["configs"]["evolution_method"] = "iterate-exact"
+        op["configs"]["ev_op_iterations"] = 1
+        op["mugrid"] = op["mugrid"][:1]
+        op["xgrid"] = op["xgrid"][-3:] if len(op["xgrid"]) > 3 else op["xgrid"]
+        op["configs"]["interpolation_polynomial_degree"] = min(op["configs"]["interpolation_polynomial_degree"], len(op["xgrid"]) - 1)
     return th, op
 
 
